@@ -117,6 +117,37 @@ func slashGuard(p *pkg, fd *ast.FuncDecl) (atoms []string) {
 	return
 }
 
+// callOrder: which of the named functions are called from fd (helpers inlined), in source order.
+func callOrder(p *pkg, fd *ast.FuncDecl, names map[string]bool) []string {
+	var seq []string
+	var walk func(fd *ast.FuncDecl, depth int)
+	walk = func(fd *ast.FuncDecl, depth int) {
+		ast.Inspect(fd.Body, func(n ast.Node) bool {
+			ce, ok := n.(*ast.CallExpr)
+			if !ok {
+				return true
+			}
+			name := ""
+			switch f := ce.Fun.(type) {
+			case *ast.Ident:
+				name = f.Name
+			case *ast.SelectorExpr:
+				name = f.Sel.Name
+			}
+			if names[name] {
+				seq = append(seq, name)
+				return true
+			}
+			if d := p.resolve(ce); d != nil && depth < 4 {
+				walk(d, depth+1)
+			}
+			return true
+		})
+	}
+	walk(fd, 0)
+	return seq
+}
+
 func main() {
 	repo := Repo()
 	Header(repo)
@@ -264,9 +295,30 @@ func main() {
 	}
 	// EndBlocker gates
 	updGate, slashGate := []string{"missing"}, []string{"missing"}
+	var ebOrder []string
 	if fd := ap.fn("EndBlocker"); fd != nil {
 		updGate = gateOf(ap, fd, "UpdateExchangeRates")
 		slashGate = gateOf(ap, fd, "SlashAndResetMissCounters")
+		ebOrder = callOrder(ap, fd, map[string]bool{"UpdateExchangeRates": true, "SlashAndResetMissCounters": true})
+	}
+	// UpdateExchangeRates: nothing guards the calls that count misses, pay rewards and clear the votes
+	guards := 99
+	var updOrder []string
+	if fd := kp.fn("UpdateExchangeRates", "Keeper"); fd != nil {
+		guards = 0
+		for _, nm := range []string{"incrementMissCounters", "rewardWinners", "clearVotesAndPrevotes"} {
+			owner, call := kp.findCall(fd, nm, nil)
+			if call == nil {
+				guards += 50
+				continue
+			}
+			for _, l := range kp.literals(pathConds(owner.Body, call)) {
+				if !isErrCond(l.e) {
+					guards++
+				}
+			}
+		}
+		updOrder = callOrder(kp, fd, map[string]bool{"Tally": true, "incrementMissCounters": true, "rewardWinners": true, "clearVotesAndPrevotes": true})
 	}
 
 	fmt.Println("Require Import Nib.C10.Cfg Nib.C12.Cfg.")
@@ -288,7 +340,10 @@ func main() {
 	fmt.Printf("  sc_band_halved := %s;\n", CoqBool(halved))
 	fmt.Printf("  sc_abstain_not_positive := %s;\n", CoqBool(abstain))
 	fmt.Printf("  sc_update_gate := %s;\n", coqStrs(updGate))
-	fmt.Printf("  sc_slash_gate := %s |}.\n", coqStrs(slashGate))
+	fmt.Printf("  sc_slash_gate := %s;\n", coqStrs(slashGate))
+	fmt.Printf("  sc_endblock_order := %s;\n", coqStrs(ebOrder))
+	fmt.Printf("  sc_update_order := %s;\n", coqStrs(updOrder))
+	fmt.Printf("  sc_update_guards := %d |}.\n", guards)
 	fmt.Println("(* diagnostics (not used by the obligations) *)")
 	fmt.Printf("Definition slash_guard_atoms : list string := %s.\n", coqStrs(atoms))
 }
